@@ -107,6 +107,9 @@ pub struct Scn {
     pub import_observers_as_modules: bool,
     #[serde(default)]
     pub import_observers_eval: bool,
+    /// a slow host: answers to the orders the victims left unanswered arrive during the battery
+    #[serde(default)]
+    pub late_answers: bool,
 }
 
 pub struct C11;
@@ -177,7 +180,7 @@ fn battery_spec(fuel: u64) -> crate::host::RunSpec {
         withhold_imports: false,
         linked_promises: false,
         host_activity_pm: 0,
-        internal_sources: Default::default(),
+        internal_sources: Default::default(), stale_answer_ids: Vec::new(),
     }
 }
 
@@ -239,7 +242,7 @@ pub fn run_to_end(h: &mut Host, spec: crate::host::RunSpec) -> Outcome {
     run.out
 }
 
-fn observers(h: &mut Host, scn: &Scn) -> ObsResult {
+fn observers(h: &mut Host, scn: &Scn, late: &[u64]) -> ObsResult {
     let depth_before = h.interp.call_depth();
     // observers that have to wait for host-provided modules (script or module flavour, eval or step)
     let importing = |h: &mut Host, src: &str, path: &str| -> Outcome {
@@ -266,7 +269,15 @@ fn observers(h: &mut Host, scn: &Scn) -> ObsResult {
         import_ok = Some(importing(h, IMPORT_OBSERVER_OK, "/obs/imp_ok.ts"));
         import_bad = Some(importing(h, IMPORT_OBSERVER_BAD, "/obs/imp_bad.ts"));
     }
-    let battery = run_to_end(h, battery_spec(scn.fuel));
+    // answers to orders of dead runs arrive while the battery is waiting for its own first order
+    let mut bspec = battery_spec(scn.fuel);
+    if scn.late_answers {
+        // (an id nobody ever issued is always part of the delivery, so that the fresh reference
+        // and the reused interpreter see the same host behaviour: late answers, then one step)
+        bspec.stale_answer_ids = late.to_vec();
+        bspec.stale_answer_ids.push(9_000_001);
+    }
+    let battery = run_to_end(h, bspec);
     let mut ospec = scn.observer.spec(Driver::Step, GcSched::off(), Tape::from_vec(vec![]), scn.fuel);
     ospec.path = Some("/obs/observer.ts".into());
     let observer = run_to_end(h, ospec);
@@ -312,7 +323,7 @@ fn victim_spec(v: &Victim, fuel: u64) -> crate::host::RunSpec {
 }
 
 /// Run one victim on `h`; abandon per its End. Returns (advance calls made, how it ended).
-fn run_victim(h: &mut Host, v: &Victim, fuel: u64, abandon_after: Option<u64>) -> (u64, String, u64) {
+fn run_victim(h: &mut Host, v: &Victim, fuel: u64, abandon_after: Option<u64>) -> (u64, String, u64, Vec<u64>) {
     let spec = victim_spec(v, fuel);
     tsrun::verif::set_fuel(Some(spec.fuel));
     crate::host::install_gc(&spec.gc, 0);
@@ -341,8 +352,9 @@ fn run_victim(h: &mut Host, v: &Victim, fuel: u64, abandon_after: Option<u64>) -
     }
     let depth = h.interp.call_depth() as u64;
     tsrun::verif::set_gc_decider(None);
+    let left = run.unanswered_ids();
     // the Run (and with it the host's deferred promises, tape, …) is dropped here: the host walks away
-    (n, how, depth)
+    (n, how, depth, left)
 }
 
 impl Check for C11 {
@@ -461,6 +473,7 @@ impl Check for C11 {
             import_observers_first: rng.chance(0.5),
             import_observers_as_modules: rng.chance(0.5),
             import_observers_eval: rng.chance(0.3),
+            late_answers: rng.chance(0.5),
         }
     }
 
@@ -509,7 +522,7 @@ impl Check for C11 {
         // reference: observers on a fresh interpreter
         let fresh = {
             let mut h = new_interp(0, 1);
-            observers(&mut h, scn)
+            observers(&mut h, scn, &[])
         };
         rep.sim_instructions += tsrun::verif::instructions();
         // dry run of the last victim to learn T (advance calls until it ends), on a history prefix
@@ -558,9 +571,11 @@ impl Check for C11 {
             tsrun::verif::reset();
             let mut h = new_interp(0, 1);
             let mut hows = Vec::new();
+            let mut late_ids: Vec<u64> = Vec::new();
             for (i, v) in scn.victims.iter().enumerate() {
                 let ab = if i == last && v.end == End::AbandonSteps { p } else { None };
-                let (n, how, depth) = run_victim(&mut h, v, scn.fuel, ab);
+                let (n, how, depth, left) = run_victim(&mut h, v, scn.fuel, ab);
+                late_ids.extend(left);
                 if !how.starts_with("ended:complete") {
                     nontrivial = true;
                 }
@@ -580,7 +595,10 @@ impl Check for C11 {
                 }
                 hows.push(format!("{}@{}", how, n));
             }
-            let reused = observers(&mut h, scn);
+            if scn.late_answers && !late_ids.is_empty() {
+                rep.bump("fault_late_answers_to_orders_of_dead_runs", late_ids.len() as u64);
+            }
+            let reused = observers(&mut h, scn, &late_ids);
             rep.sim_instructions += tsrun::verif::instructions();
             rep.bump("histories", 1);
             digest.push_str(&format!("{:?}|{:?};", p, hows));
